@@ -115,6 +115,9 @@ func runC19(c *report.Ctx) {
 
 	// ---- (6) class gate --------------------------------------------------------------------------
 	ruleClassGate(c)
+
+	// ---- (7) ready set: a half-removed wallet must not receive credits (its balance row is gone) --------
+	ruleReadySet(c)
 }
 
 func firstDefer(f *ssa.Function) *ssa.Defer {
